@@ -13,7 +13,11 @@ F, U, K, N = "FULFILLED", "UNFULFILLED", "UNKNOWN", "NEUTRAL"
 
 
 class RefSyntaxError(Exception):
-    pass
+    """kind: 'eof' if the input ended too early (Lark: UnexpectedEOF), else 'char' (UnexpectedCharacters)."""
+
+    def __init__(self, msg: str, kind: str = "char"):
+        super().__init__(msg)
+        self.kind = kind
 
 
 class RefInvalid(Exception):
@@ -45,7 +49,7 @@ def tokenize(text: str) -> List[Tuple[str, str]]:
     out: List[Tuple[str, str]] = []
     text = text.rstrip()
     if not text.strip():
-        raise RefSyntaxError("empty")
+        raise RefSyntaxError("empty", "eof")
     while pos < len(text):
         m = TOKEN_RE.match(text, pos)
         if not m or m.end() == pos:
@@ -71,7 +75,7 @@ def parse_condition(text: str):
             pos += 1
             e = level_or()
             if peek()[0] != "rp":
-                raise RefSyntaxError("missing )")
+                raise RefSyntaxError("missing )", "eof" if peek()[0] is None else "char")
             pos += 1
             return e
         if kind == "key":
@@ -85,7 +89,7 @@ def parse_condition(text: str):
             inner = val[1:-1]
             i = inner.index("P") + 1
             return ("pkg", inner[:i], inner[i:] or None)
-        raise RefSyntaxError(f"operand expected, got {val!r}")
+        raise RefSyntaxError(f"operand expected, got {val!r}", "eof" if kind is None else "char")
 
     def level_then():
         e = atom()
